@@ -14,8 +14,15 @@ PROPS_FILES = sorted("Gama/Props/" + Path(f).name for f in glob.glob(str(LEAN / 
 LEAN_TARGETS = [f[:-5].replace("/", ".") for f in PROPS_FILES]
 DRIVERS = ["drv_ls", "drv_netdecision"]
 RULE = ("(a) problems (A,b,C,S) from tools/lib/gen_ls.py (dense with planted dependent columns, levelling graphs incl. "
-        "disconnected; unit/diagonal/banded SPD covariance; subsets that resolve AND subsets that do not, decided "
-        "exactly) x {env,chol,gso,svd} x {solver,adj}: x, r, rtr, defect, all q_xx, q_bb; (b) networks from "
+        "disconnected; a guaranteed quota of exact free-network Jacobians — 2D distances / distances+directions (datum "
+        "defect 3), directions only and space networks (defect 4), unknowns in point order or shuffled — and of two-part "
+        "problems whose kernel lives on a proper part of the unknowns; unit/diagonal/banded SPD covariance; the subset "
+        "'all' and PROPER subsets (coordinates of some points, one axis, random) that resolve AND that do not, decided "
+        "exactly) x {env,chol,gso,svd} x {solver,adj}: x, r, rtr, defect, all q_xx, q_bb, and lindep(1..n) of every "
+        "solver on every singular problem (after an accepted and after a refused unknowns()): #flags = defect, "
+        "flagged unknowns in the support of ker A, the other columns independent (exact rational rank); measured: "
+        "groups per defect, cases in which AdjCholDec's null-space Gram-Schmidt swapped / scanned a non-identity g_perm "
+        "(model trace), problems whose real RCM ordering is not an involution (probe envinfo); (b) networks from "
         "tools/lib/gen_net.py (2D/3D, fixed / free with all or some points constrained, distance-only / directions / "
         "angles / azimuths / slope distances / zenith angles / height differences / vectors, correlated clusters, "
         "points without coordinates, gross errors above tol-abs) x gama-local --algorithm {envelope,cholesky,gso,svd}; "
@@ -310,6 +317,52 @@ def env_orderings(exe, groups, cases):
 
 F7SVD_REGISTERED = any(f.get("id") == "F7-svd" for f in load_findings("C02"))
 
+def ls_corpus(ctx, corr, exe, with_model=True):
+    """corpus/C02/ls-*.ops: minimised solver-level inputs kept from past rounds (raw protocol lines of the form
+    problem… / new <alg> solver / x [r rtr] defect / lindep 1..n): model vs implementation, the exact reference for x
+    when the stored subset resolves the defect, the lindep oracle"""
+    files = sorted((ctx.verif / "corpus" / "C02").glob("ls-*.ops"))
+    cases = [[l for l in f.read_text().splitlines() if l.strip() and not l.startswith("#")] for f in files]
+    if not cases:
+        return
+    impl, crashes = run_cases(exe, cases)
+    model = run_cases(ctx.driver("drv_ls"), cases)[0] if with_model else None
+    for i, (f, c) in enumerate(zip(files, cases)):
+        corr.case(key="corpus:" + f.name)
+        corr.count("ls_corpus_cases")
+        rep = {"stream": "ls", "ops": c, "file": f.name}
+        if i in crashes:
+            corr.fail("corpus case crashes the solver", rep, "corpus/" + f.name, crashes[i][1])
+            continue
+        p, minx = g.problem_from_lines(c)
+        n = p["n"]
+        S = list(range(1, n + 1)) if minx in (None, "all") else minx
+        ok = g.resolves(p, S)
+        k = c.index("end") + 1                      # c[k] = "new …"; answers start at out[2]
+        alg = c[k].split()[1]
+        out = impl[i]
+        if model is not None:
+            for a, b in zip(out, model[i]):
+                if b == "not-modelled" or (not ok and a != b and b.startswith("throw")):
+                    continue
+                if not lines_equal(a, b, rtol=1e-9, atol=1e-9):
+                    corr.disagree("ls-corpus", c, out, model[i], f.name)
+                    break
+        bad = []
+        qs = c[k + 1:]
+        if ok and qs[:4] == ["x", "r", "rtr", "defect"]:
+            bad += c01.oracle(p, S, out[:6], g.reference(p, S))
+        if not ok and qs and qs[0] == "x" and not (len(out) > 2 and out[2].startswith("throw")):
+            bad.append(f"subset {S} does not resolve the defect {p['defect']} but unknowns() -> {out[2][:60] if len(out) > 2 else ''}")
+        li = [j for j, q in enumerate(qs) if q.startswith("lindep ")]
+        if li and p["defect"]:
+            fl = lindep_flags(out, 2 + li[0], n)
+            bad += ["lindep not answered"] if fl is None else lindep_oracle(p, fl)
+        if bad:
+            corr.fail(f"{alg}/solver ({f.name}): " + "; ".join(bad), rep,
+                      f"{alg}/solver/lindep" if any("flagged" in b for b in bad) else f"{alg}/solver", " | ".join(out[:8]))
+
+
 # quick-tier minimum of the case mix (thorough has more of everything); not met -> inconclusive
 LS_MIN = {"ls_groups_defect_3": 20, "ls_groups_defect_4": 15, "ls_groups_defect_ge3_proper_resolving": 25,
           "ls_groups_defect_ge3_proper_not_resolving": 6, "ls_chol_gs_cases_swapped": 20, "ls_chol_gs_cases_offid": 10,
@@ -319,6 +372,7 @@ LS_MIN = {"ls_groups_defect_3": 20, "ls_groups_defect_4": 15, "ls_groups_defect_
 
 def check_ls(ctx, corr, nprob, with_model=True, quota=None):
     exe = c01.harness(ctx)
+    ls_corpus(ctx, corr, exe, with_model)
     groups, cases = ls_cases(ctx, nprob, quota)
     model = None
     with concurrent.futures.ThreadPoolExecutor(max_workers=2) as ex:
@@ -1162,7 +1216,7 @@ def search(ctx, broken, corr):
     big = Ctx(ctx.id, "thorough", ctx.seed + 1000)
     big.thorough = True
     c2 = Corr()
-    check_ls(big, c2, 500, with_model=False)
+    check_ls(big, c2, 250, with_model=False, quota={"free": 80, "parts": 50})
     if not c2.failures:
         check_nets(big, c2, 400)
     c2.failures.sort(key=lambda f: len(json.dumps(f.replay)))
@@ -1205,6 +1259,18 @@ def replay(ctx, payload):
             print("\n".join(c[:c.index("end") + 2]), "...")
             print("->", o[:8], "...")
         print(crashes)
+        if f.get("site", "").endswith("/lindep") and not crashes:
+            # the lindep oracle re-evaluated on the current tree (exact kernel recomputed from the recorded problem)
+            c, o = grp[0], impl[0]
+            p, _ = g.problem_from_lines(c)
+            k = [i for i, l in enumerate(c) if l.startswith("lindep ")]
+            off = k[0] - (c.index("end") + 1) + 1 if k else None
+            fl = lindep_flags(o, off, p["n"]) if k else None
+            print("lindep ->", fl, "defect", p["defect"])
+            bad = ["lindep not answered"] if fl is None else lindep_oracle(p, fl)
+            for b in bad:
+                print("FAIL", b)
+            return 1 if bad else 0
         return 1
     if inp.get("stream") == "net":
         gama = build_gama_retry(ctx, sanitize=False, targets=("gama-local", "gama-g3"))
